@@ -31,14 +31,18 @@ class Cfg:
     guard(test_node)   -> label or None     emits ('guard', label, outcome) when a branch on it is taken
     inline(label, node, ctx) -> (Module, FunctionDef, new_ctx) or None
     loop_marks: emit ('loop', id) / ('iter', id) / ('endloop', id) events for loops selected by loop(node)
+    prune(if_node)     -> True / False / None   forces the outcome of an `if` statement (only that branch is walked);
+                          used for self-recursive wrappers `if c: <re-enter this function piecewise>; return`, whose
+                          trace is the base case's trace repeated
     """
 
-    def __init__(self, call=None, store=None, guard=None, inline=None, loop=None, max_depth=4, loop_unroll=2):
+    def __init__(self, call=None, store=None, guard=None, inline=None, loop=None, max_depth=4, loop_unroll=2, prune=None):
         self.call = call or (lambda label, node: None)
         self.store = store or (lambda label, node: None)
         self.guard = guard or (lambda test: None)
         self.inline = inline or (lambda label, node, ctx: None)
         self.loop = loop or (lambda node: None)
+        self.prune = prune or (lambda node: None)
         self.max_depth = max_depth
         self.loop_unroll = loop_unroll
 
@@ -210,7 +214,10 @@ class Tracer:
             t = E(s.test)
             g = self.cfg.guard(s.test)
             out: Set[Path] = set()
+            forced = self.cfg.prune(s)
             for pre, body, outcome in ((t, s.body, True), (t, s.orelse, False)):
+                if forced is not None and outcome != forced:
+                    continue
                 pre2 = self._guarded(pre, g, outcome)
                 for evs2, ex2 in self.block(body, ctx, depth):
                     for p in pre2:
